@@ -91,11 +91,12 @@ PROPS = {
         "units": [
             {"kind": "verus", "unit": "tail"},
             {"kind": "verus", "unit": "tailfwd"},
+            {"kind": "verus", "unit": "shortcut"},
             {"kind": "scan", "spec": "tca_sites"},
         ],
         "unreached": [
             "that the trampoline computes what ordinary recursion computes (needs a semantics of evaluation)",
-            "that a forwarded tail evaluation's result is returned unchanged by the carrier (the skeletons keep the evaluation calls and their flag, not the data flow of the result)",
+            "that a forwarded tail evaluation's result is returned unchanged by the carriers other than `if`, `and`, `or` (V-shortcut proves it for these three on the real text; for the rest the skeletons keep the evaluation calls and their flag, not the data flow of the result)",
             "in the Call arm: that the callee is the local recursion cell (the `if let` conditions are dropped by the skeleton; only `tail_available` is kept)",
         ],
         "assumptions": ["contracts of from_template / eval / increment_call_limit / check_timeout as stated in tail.prelude.rs (ghost history)",
